@@ -400,6 +400,11 @@ class QsModel:
         kind = exp[1]
         if "error" in payload and kind not in ("error", "any"):
             cls = "I-unknown" if rpc in ("qpull", "qadd") else "R-error"
+            if self.own == "C19" and rpc == "qfinish":
+                # the job's real state is what its worker reported (the model has applied it); the
+                # refused report is C17's to flag, and C19 goes on to judge the status against it
+                self.foreign_seen[cls] = self.foreign_seen.get(cls, 0) + 1
+                return
             self._fail(cls, f"{rpc} on {conn} answered with an error: {payload['error']!r}", rpc=rpc)
         res = payload.get("result")
         if kind == "value":
